@@ -12,8 +12,8 @@ VERIF = os.path.dirname(os.path.dirname(os.path.dirname(os.path.abspath(__file__
 CORPUS = os.path.join(VERIF, "corpus", "C13")
 CANDIDATE_FINDINGS = ("C13-alloc-io-nonpow2", "C13-decoder-subword", "C13-alloc-size0-hang")
 
-QUICK = {"bus": 11000, "busraw": 1500, "loc": 4000, "cm": 2500, "dec": 1500, "banks": 240, "hw": 24}
-THOROUGH = {"bus": 150000, "busraw": 20000, "loc": 40000, "cm": 30000, "dec": 20000, "banks": 4000, "hw": 400}
+QUICK = {"bus": 11000, "busraw": 1500, "loc": 4000, "cm": 2000, "cm2": 1500, "dec": 1500, "banks": 240, "hw": 24}
+THOROUGH = {"bus": 150000, "busraw": 20000, "loc": 40000, "cm": 30000, "cm2": 15000, "dec": 20000, "banks": 4000, "hw": 400}
 CHUNK = 250
 
 
@@ -121,8 +121,16 @@ def _hist(ctx, rec, model):
         cov.count("cm.via_GenericPlatform" if rec["input"].get("plat") else "cm.direct_manager")
         for w in model.split(" # ")[0].split():
             cov.count("cm.out." + w.split(":")[0] + (":" + w.split(":")[1] if w.startswith("err") else ""))
+    elif k == "cm2":
+        cov.count("cm2.via_GenericPlatform" if rec["input"].get("plat") else "cm2.direct_manager")
+        halves = model.split(" ## ")
+        cov.count("cm2.both_instances_used" if "-" not in [h.strip() for h in halves] else "cm2.one_instance_used")
+        for h in halves:
+            for w in h.split(" # ")[0].split():
+                cov.count("cm2.out." + w.split(":")[0])
     elif k == "banks":
         inp = rec["input"]
+        cov.count("banks.extra_slave." + (model.rsplit("ram:", 1)[1] if "ram:" in model else "n/a"))
         cov.count("banks.finalize." + ("ok" if model.startswith("ok") else model))
         cov.count("banks.csr_dw=%d,paging=0x%x" % (inp["csr_dw"], inp["paging"]))
         cap = inp["paging"] // 4
@@ -263,7 +271,7 @@ def correspond(ctx):
     nc = run_corpus(ctx, dis, stats)
     ctx.cov.add_cases("corpus witnesses", nc, nc, True)
     tasks = []
-    for kind in ("banks", "bus", "busraw", "loc", "cm", "dec"):
+    for kind in ("banks", "bus", "busraw", "loc", "cm", "cm2", "dec"):
         n = plan[kind]
         chunk = 40 if kind == "banks" else CHUNK
         while n > 0:
@@ -287,12 +295,13 @@ def correspond(ctx):
                 pool.terminate()
                 break
     names = {"busraw": "SoCBusHandler histories WITHOUT roll-back (a caller catching SoCError): state left behind by refused calls",
+             "cm2": "two ConstraintManagers / GenericPlatforms built from ONE io list object, interleaved histories (isolation)",
              "bus": "SoCBusHandler histories (add_region/alloc/add_slave/add_master/io check/finalize)",
              "loc": "SoCCSRHandler/SoCIRQHandler histories (add/alloc/address_map/enable)",
              "cm": "ConstraintManager histories (request/request_all/request_remaining/lookup/add_extension)",
              "dec": "SoCRegion.decoder instances (exhaustive for toy widths, boundaries +-1 else)",
              "banks": "real SoCMini(...).finalize() with CSR banks around the page capacity (csr width 8/32, paging 0x400-0x1000)"}
-    for k in ("bus", "busraw", "loc", "cm", "dec", "banks"):
+    for k in ("bus", "busraw", "loc", "cm", "cm2", "dec", "banks"):
         ctx.cov.add_cases(names[k], per_kind[k][0], per_kind[k][1], False)
     ctx.cov.count("decoder_bitstrings_compared", stats["dec_cmp"])
     ctx.log("histories: %d in %.1fs (%s), %d decoder bit-strings compared" % (
@@ -329,7 +338,7 @@ def shrink(inp, known):
                     cur, changed = cand, True
                     break
         return cur
-    if inp["kind"] not in ("bus", "busraw", "loc", "cm"):
+    if inp["kind"] not in ("bus", "busraw", "loc", "cm", "cm2"):
         return inp
     cur = dict(inp)
     changed = True
@@ -390,8 +399,8 @@ def search(ctx, disagreements, proof_info):
     t0 = time.time()
     tasks = []
     for _ in range(4000):
-        for kind in ("bus", "bus", "busraw", "loc", "cm", "dec"):
-            tasks.append((kind, ctx.rng.getrandbits(48), CHUNK, known))
+        for kind in ("bus", "bus", "busraw", "loc", "cm", "cm2", "dec", "banks"):
+            tasks.append((kind, ctx.rng.getrandbits(48), 40 if kind == "banks" else CHUNK, known))
     with mp.get_context("fork").Pool(procs()) as pool:
         for recs in pool.imap_unordered(L.work_chunk, tasks, chunksize=1):
             for r in recs:
